@@ -342,3 +342,52 @@ func TestC04_R_F1_NegativeSeek(t *testing.T) {
 		}
 	}
 }
+
+const c04HealRule = "case = hand-assembled file DAG (empty chunks, dag-pb or raw leaves, with or without BlockSizes / FileSize - without them the length has to be worked out by opening children) + 1..2 end-relative Seeks while the k-th next block load fails once (their results are not judged: measuring swallows load errors) + storage healthy again; " +
+	"oracle = afterwards Seek(0, End) on the used reader and on a fresh one equals the true length and Seek(-1, End) + Read yields the last byte; non-trivial = file without FileSize; distinct by (shape, fault position)"
+
+// TestC04_P_LengthAfterTransientFault: whatever an end-relative seek made of a storage fault, it must not stick to the node.
+func TestC04_P_LengthAfterTransientFault(t *testing.T) {
+	ev := newEvid(t, c04HealRule)
+	rapid.Check(t, func(t *rapid.T) {
+		fc := genHandFileDAG(t, true)
+		n := int64(len(fc.Data))
+		how := rapid.SampledFrom([]string{"Reify", "NewUnixFSFile", "unixfs-preload"}).Draw(t, "open")
+		node, err := c01Open(fc.St, fc.Root, how)
+		if err != nil {
+			t.Fatalf("open: %v", err)
+		}
+		lb := node.(datamodel.LargeBytesNode)
+		used, _ := lb.AsLargeBytes()
+		for i := rapid.IntRange(1, 2).Draw(t, "faultySeeks"); i > 0; i-- {
+			fc.St.FaultKind = genFaultKind(t)
+			fc.St.FailReadAt = len(fc.St.ReadLog()) + rapid.IntRange(1, 3).Draw(t, "faultAfterLoads")
+			must(t, "end-relative Seek under a transient fault", func() {
+				_, _ = used.Seek(-int64(rapid.IntRange(0, int(n)).Draw(t, "back")), io.SeekEnd)
+			})
+			fc.St.FailReadAt, fc.St.FaultKind = 0, 0
+		}
+		fresh, _ := lb.AsLargeBytes()
+		for ri, rs := range []io.ReadSeeker{used, fresh} {
+			name := []string{"the reader that met the fault", "a fresh reader of the same node"}[ri]
+			var end int64
+			var err error
+			must(t, "Seek(0, End)", func() { end, err = rs.Seek(0, io.SeekEnd) })
+			if err != nil || end != n {
+				t.Fatalf("C04 [%s via %s]: after a transient storage fault during an end-relative seek, Seek(0, End) on %s = (%d, %v), the file has %d bytes", fc.Desc, how, name, end, err, n)
+			}
+			if n > 0 {
+				var p int64
+				must(t, "Seek(-1, End)", func() { p, err = rs.Seek(-1, io.SeekEnd) })
+				b := make([]byte, 4)
+				k, rerr := rs.Read(b)
+				if err != nil || p != n-1 || k != 1 || b[0] != fc.Data[n-1] || (rerr != nil && rerr != io.EOF) {
+					t.Fatalf("C04 [%s via %s]: on %s Seek(-1, End) = (%d, %v) then Read = (%d, %v) %x; want position %d and the last byte %x", fc.Desc, how, name, p, err, k, rerr, b[:k], n-1, fc.Data[n-1])
+				}
+			}
+		}
+		noFS := strings.Contains(fc.Writer, "fs=false")
+		ev.Case(fc.Writer+" "+how, noFS, "open:"+how, fmt.Sprintf("noFileSize:%v", noFS))
+		ev.Sample(map[string]any{"file": fc.Desc, "open": how})
+	})
+}
